@@ -102,6 +102,10 @@ struct G<'a, 'b> {
     aux: Vec<AuxVal>,
     n_ident: usize,
     shared_names: bool,
+    /// a SEQUENCE subject is generated in the shape whose values the bindings can express
+    /// today (>= 2 members, none OPTIONAL, governed directly; see the C01 findings on
+    /// SEQUENCE values), so that SEQUENCE value denotation is observed and not only skipped
+    seq_friendly: bool,
     cfg: GenOpts,
     depth_now: usize,
     excluded_nested_bmp: usize,
@@ -312,7 +316,8 @@ impl<'a, 'b> G<'a, 'b> {
                 K::Choice(alts)
             }
             9 => {
-                let n = if self.src.chance(85) { 2 + self.src.pick(3) } else { self.src.pick(2) };
+                let friendly = depth == 0 && self.seq_friendly;
+                let n = if friendly || self.src.chance(85) { 2 + self.src.pick(3) } else { self.src.pick(2) };
                 let mut comps = vec![];
                 for _ in 0..n {
                     let id = self.ident("f");
@@ -320,7 +325,8 @@ impl<'a, 'b> G<'a, 'b> {
                         continue;
                     }
                     let t = self.gen_type(depth + 1, true);
-                    comps.push((id, t, self.src.chance(12)));
+                    let optional = self.src.chance(12) && !friendly;
+                    comps.push((id, t, optional));
                 }
                 K::Seq(comps)
             }
@@ -690,12 +696,17 @@ pub fn enum_numbers(root: &[(String, Option<i128>)]) -> Vec<i128> {
 pub fn gen_case(stream: &[u32], opts: GenOpts) -> Case {
     let mut src = Src::new(stream);
     let shared = src.chance(25);
-    let mut g = G { src: &mut src, types: vec![], aux: vec![], n_ident: 0, shared_names: shared, cfg: opts, depth_now: 0, excluded_nested_bmp: 0 };
-    let alias_depth = g.src.weighted(&[5, 3, 2, 1, 1]);
+    let seq_friendly = src.chance(70);
+    let mut g = G { src: &mut src, types: vec![], aux: vec![], n_ident: 0, shared_names: shared, seq_friendly, cfg: opts, depth_now: 0, excluded_nested_bmp: 0 };
+    let mut alias_depth = g.src.weighted(&[5, 3, 2, 1, 1]);
     let subject = g.gen_type(0, alias_depth == 0);
+    let friendly_seq = seq_friendly && matches!(g.types[subject].k, K::Seq(_));
+    if friendly_seq {
+        alias_depth = 0;
+    }
     let v0 = g.gen_value(subject, 0);
     let chain = g.src.weighted(&[4, 3, 2, 1, 1]);
-    let holder = g.src.chance(80);
+    let holder = g.src.chance(80) && !friendly_seq;
     let dflt = g.gen_value(subject, 0);
     let excluded = g.excluded_nested_bmp;
     let decoys = if g.src.chance(20) { 1 + g.src.pick(3) as u8 } else { 0 };
@@ -1240,6 +1251,16 @@ fn judge(ctx: &mut Ctx, prep: &Prepared) -> Judged {
         K::Seq(_) => "SEQUENCE",
         K::SeqOf(_) => "SEQUENCE OF",
     };
+    // how the cases of each subject kind end: evidence of what is observed and what is not
+    ctx.class(&format!(
+        "case:{subject_kind}:{}",
+        match prep.status.as_ref().expect("status") {
+            Status::Rejected(_) => "reported-unsupported",
+            Status::Unobservable(_) => "unobservable",
+            Status::Rustc(_) => "rustc-rejects",
+            Status::Observed(_) => "observed",
+        }
+    ));
     match prep.status.as_ref().expect("status") {
         Status::Rejected(why) => {
             if std::env::var("C07_STATS").is_ok() {
